@@ -319,6 +319,8 @@ class AbstractOnlineSpecification(AbstractSpecification):
     # forwarding pastify
     def pastify(self):
         self.ast = self.pastifier.pastify(self.ast)
+        # operators that were already built (by an earlier reset() or update()) belong to the specification as it was: build them again
+        self.set_ast_flag = False
 
     # forwarding to interpreter
     def update(self, *args, **kwargs):
